@@ -145,6 +145,8 @@ def gen_pair(rng, maxrows=8, how=None, force_sort=None, min_rows=0):
             lon, ron = [lon[i] for i in perm], [ron[i] for i in perm]
         case = {"how": how or rng.choice(["inner", "left", "full"]), "expect": "many_to_many",
                 "L": L, "R": R, "lon": lon, "ron": ron, "single": nk == 1 and rng.random() < 0.5}
+        if rng.random() < 0.2 and all(s_[0] == "n" for s_ in lon + ron):
+            case["lived"] = rng.randrange(1 << 30)           # see observe_join: both tables have a past
         if rng.random() < 0.25:
             # the observed call is preceded by other joins of the SAME two table objects (results discarded):
             # joins are functions of the tables' contents, whatever was joined, with whatever expectation, before
@@ -213,6 +215,17 @@ def _mk_table(cols):
     if not cols:
         return Table(())
     return Table([Vector([V.dec(t) for t in vals], name=nm) for nm, vals in cols])
+
+
+def _mk_lived_table(cols, seed, warm):
+    """the same table, but one that was joined before while it held its rows in another order and was then
+    rewritten in place (values.lived_in_table)"""
+    from serif import Table, Vector
+    if not cols:
+        return Table(()), False
+    names = [nm for nm, _ in cols]
+    return V.lived_in_table(lambda cs: Table([Vector(list(c), name=nm) for nm, c in zip(names, cs)]),
+                            [[V.dec(t) for t in vals] for _, vals in cols], seed, warm)
 
 
 def _kind_tok(vec):
@@ -295,8 +308,28 @@ def call_join(case, L, R, how=None, expect="__case__", swap=False):
 def observe_join(case, aux=()):
     """aux: iterable of (label, how, expect, swap) further calls on the same inputs"""
     try:
-        L, R = _mk_table(case["L"]), _mk_table(case["R"])
+        lived_ok = None
+        if case.get("lived") is not None:
+            # both tables have a past: each was joined (against the other side's fresh twin, with its own key
+            # specification) while it held its rows in another order, and was then rewritten in place
+            def warm_with(other_cols, as_left):
+                def warm(t):
+                    o = _mk_table(other_cols)
+                    for how in ("inner", "full"):
+                        try:
+                            (call_join(case, t, o, how=how, expect="many_to_many")[0] if as_left
+                             else call_join(case, o, t, how=how, expect="many_to_many")[0])()
+                        except Exception:                    # noqa: BLE001
+                            pass
+                return warm
+            L, okl = _mk_lived_table(case["L"], case["lived"], warm_with(case["R"], True))
+            R, okr = _mk_lived_table(case["R"], case["lived"] + 1, warm_with(case["L"], False))
+            lived_ok = bool(okl or okr)
+        else:
+            L, R = _mk_table(case["L"]), _mk_table(case["R"])
         obs = {"pre": {"L": table_state(L), "R": table_state(R)}, "ranks": ranks_of(case)}
+        if lived_ok is not None:
+            obs["lived_ok"] = lived_ok
         thunk, lv, rv = call_join(case, L, R)
         obs["veckinds"] = {"l": [_kind_tok(x) for x in lv], "r": [_kind_tok(x) for x in rv]}
         pre_vecs = [[V.enc(x) for x in vec._underlying] for vec in lv + rv]
